@@ -242,10 +242,9 @@ def build(case, run):
             if i in rng and j in rng and kind in ('h', 'b'):
                 nested.add_dependency(tasks[i], on=tasks[j])
                 inner.add((i, j, 'h'))
-        if not any(k in ('s', 'b') for (_x, k) in grp['deps'] + grp['by']):
-            hgraph.add_node(nested)
-        elif not any(k in ('h', 'b') for (_x, k) in grp['deps'] + grp['by']):
-            sgraph.add_node(nested)
+        # the group is always a node of the hard graph (its inner edges are hard ones); it
+        # enters the soft graph through its soft edges, if any
+        hgraph.add_node(nested)
         for (j, kind) in grp['deps']:
             if kind in ('h', 'b'):
                 hgraph.add_dependency(nested, on=tasks[j])
@@ -272,6 +271,8 @@ def shape_labels(case):
     labs = []
     if case.get('order'):
         labs.append('insertion-order-permuted')
+    if case.get('prelude'):
+        labs.append('backend-reused-after-other-graph')
     groups = case.get('groups') or ()
     if groups:
         labs.append('group-nodes')
@@ -329,6 +330,23 @@ def execute(case, sched_spec=None, max_steps=20000):
     def body():
         backend = qmod.QueueScheduling(case['workers'])
         backend_box['backend'] = backend
+        prelude = case.get('prelude')
+        if prelude:
+            # the same back-end object first schedules ANOTHER graph over tasks with the same
+            # names (own task objects, own environment); whatever that call does -- return or
+            # raise -- must not influence the call that is judged
+            pcase = {'n': case['n'], 'edges': prelude['edges'], 'workers': case['workers'],
+                     'outcomes': prelude.get('outcomes') or ['done'] * case['n']}
+            ptasks, phard, psoft = build(pcase, RunState())
+            penv = envmod.Env()
+            for key, status in sorted((prelude.get('init') or {}).items()):
+                penv[ptasks[int(key)].name] = initial_entry(ptasks[int(key)].name, status, -50)
+            try:
+                Scheduler(hard_graph=phard, soft_graph=psoft, backend=backend).schedule(env=penv)
+            except (vsched.Abort, vsched.HarnessGap):
+                raise
+            except Exception as exc:      # e.g. AssertionError for FAILED initial entries
+                backend_box['prelude_raised'] = repr(exc)
         sched = Scheduler(hard_graph=hgraph, soft_graph=sgraph, backend=backend)
         res = sched.schedule(env=env)
         for _ in range(int(case.get('again') or 0)):
@@ -403,6 +421,27 @@ def graphs(draw, max_tasks=7, min_tasks=1):
             if draw(st.floats(0, 1)) < density:
                 edges.append((i, j, draw(_kind())))
     return n, edges
+
+
+@st.composite
+def preludes(draw, n, with_init=False):
+    """Optional earlier use of the same back-end object on another graph over the same task
+    names (dict to merge into the case, possibly empty)."""
+    if draw(st.integers(0, 5)) != 0:
+        return {}
+    _n, edges = draw(graphs(max_tasks=n, min_tasks=n))
+    pre = {'edges': edges}
+    if draw(st.booleans()):
+        pre['outcomes'] = draw(outcomes(n, 0.3))
+    if with_init and draw(st.booleans()):
+        init = {}
+        for i in range(n):
+            stt = draw(st.sampled_from([None, None, 'DONE', 'FAILED', 'SKIPPED']))
+            if stt:
+                init[str(i)] = stt
+        if init:
+            pre['init'] = init
+    return {'prelude': pre}
 
 
 @st.composite
